@@ -69,6 +69,15 @@ pub struct Scn {
     pub late_awaiter: Option<u16>,
     /// a second, independent failing process with its own awaiter
     pub second: Option<(Fail, u16)>,
+    /// a process that awaits a third failing process with a timeout, gives up when the timeout
+    /// fires (the target is blocked until then), only then triggers the failure, and goes on
+    /// working: (failure kind, timeout ms, work afterwards). It no longer awaits the failing
+    /// process when that fails, so it must reach its normal result.
+    pub gave_up: Option<(u8, u8, u16)>,
+    /// an awaiter of the failing process whose select has a second source that becomes ready
+    /// later (false: a timeout of this many ms; true: a message the entry sends near its end),
+    /// followed by an observable effect: once it has failed it must not run on
+    pub second_source: Option<(bool, u8)>,
 }
 
 #[derive(Clone, Debug)]
@@ -90,9 +99,21 @@ pub fn strategy(n_cfgs: usize) -> impl Strategy<Value = Case> {
         prop::option::of(work.clone()),
         prop::collection::vec(work.clone(), 1..3),
         prop::option::of(work.clone()),
-        prop::option::of((fail(), work)),
+        prop::option::of((fail(), work.clone())),
+        prop::option::weighted(0.4, (0u8..5, 1u8..12, work)),
+        prop::option::weighted(0.5, (any::<bool>(), 5u8..80)),
     )
-        .prop_map(|(fail, fail_work, awaiters, talking_awaiter, bystanders, late_awaiter, second)| Scn { fail, fail_work, awaiters, talking_awaiter, bystanders, late_awaiter, second });
+        .prop_map(|(fail, fail_work, awaiters, talking_awaiter, bystanders, late_awaiter, second, gave_up, second_source)| Scn {
+            fail,
+            fail_work,
+            awaiters,
+            talking_awaiter,
+            bystanders,
+            late_awaiter,
+            second,
+            gave_up,
+            second_source,
+        });
     let cfg = (1u8..=4, 0u8..48, prop::collection::vec(any::<u8>(), 0..200));
     (scn, prop::collection::vec(cfg, n_cfgs)).prop_map(|(scn, cfgs)| Case { scn, cfgs })
 }
@@ -141,14 +162,33 @@ pub fn render(s: &Scn) -> String {
         lines.push(format!("{wk} w"));
         lines.push(format!("l0 = @#{{ {}, ! [f0] }}", tag("l", 0)));
     }
+    if let Some((k, t, wk)) = s.gave_up {
+        lines.push(format!("f2 = @#{{ {}, ! [#'int] =n, {} }}", tag("f", 2), GAVE_UP_FAILS[k as usize % GAVE_UP_FAILS.len()].body()));
+        lines.push(format!("g0 = @#{{ {}, r = ! [f2, {t}], 7 f2, ! [20] Ok, {wk} w }}", tag("g", 0)));
+    }
+    if let Some((by_message, t)) = s.second_source {
+        let other = if by_message { "#'int".to_string() } else { t.to_string() };
+        lines.push(format!("z0 = @#{{ {}, r = ! [f0, {other}], {} }}", tag("z", 0), tag("z", 1)));
+    }
     let mut fields: Vec<String> = (0..s.bystanders.len()).map(|i| format!("! [b{i}]")).collect();
     if s.talking_awaiter.is_some() {
         fields.push("! [c0]".to_string());
     }
+    if s.gave_up.is_some() {
+        fields.push("! [g0]".to_string());
+    }
     lines.push("! [40] Ok".to_string());
+    if let Some((true, _)) = s.second_source {
+        lines.push("9 z0".to_string());
+        lines.push("! [30] Ok".to_string());
+    } else if s.second_source.is_some() {
+        lines.push("! [90] Ok".to_string());
+    }
     lines.push(format!("[{}]", fields.join(", ")));
     lines.join(",\n")
 }
+
+const GAVE_UP_FAILS: [Fail; 5] = [Fail::DivZero, Fail::SliceRange, Fail::ModZero, Fail::NegativeSqrt, Fail::EffectError];
 
 fn sum_to(n: u16) -> String {
     ((n as u64) * (n as u64 + 1) / 2).to_string()
@@ -265,9 +305,45 @@ pub fn check(case: &Case, reg: &qrun::Registry) -> Result<Facts, (String, String
                 other => return Err(("bystander-affected".into(), format!("{desc}: the process that only sent a message to an awaiter ended with {other:?}\n{}", tail(&run)))),
             }
         }
+        if s.second_source.is_some() {
+            // either the other source won (normal result) or the failure did — and then the
+            // process is over: nothing it would have done after its select may happen
+            if let Some(Err(e)) = result_of("z0")
+                && roles.contains_key("z1")
+            {
+                return Err((
+                    "failed-awaiter-kept-running".into(),
+                    format!("{desc}: z0 failed with {e:?} while awaiting f0, yet it went on and performed the effect that follows its select\n{}", tail(&run)),
+                ));
+            }
+            if let Some(Err(e)) = result_of("z0")
+                && format!("{e:?}") != ferr
+            {
+                return Err(("awaiter-got-different-error".into(), format!("{desc}: z0 failed with {e:?}, the awaited process failed with {ferr}\n{}", tail(&run))));
+            }
+        }
+        if let Some((k, _, wk)) = s.gave_up {
+            let f2 = &GAVE_UP_FAILS[k as usize % GAVE_UP_FAILS.len()];
+            match result_of("f2") {
+                Some(Err(e)) if format!("{e:?}").contains(f2.expect()) => {}
+                other => return Err(("failing-process-did-not-fail".into(), format!("{desc}: f2 ended with {other:?}\n{}", tail(&run)))),
+            }
+            match result_of("g0") {
+                Some(Ok(v)) if v.to_string() == sum_to(wk) => {}
+                other => {
+                    return Err((
+                        "former-awaiter-affected".into(),
+                        format!("{desc}: g0 stopped awaiting f2 when its timeout fired, before f2 failed, and should finish with {} but ended with {other:?}\n{}", sum_to(wk), tail(&run)),
+                    ));
+                }
+            }
+        }
         let mut want: Vec<String> = s.bystanders.iter().map(|w| sum_to(*w)).collect();
         if s.talking_awaiter.is_some() {
             want.push("Told".into());
+        }
+        if let Some((_, _, wk)) = s.gave_up {
+            want.push(sum_to(wk));
         }
         let want = format!("[{}]", want.join(", "));
         match &run.result {
@@ -359,6 +435,12 @@ pub fn run(ctx: &Ctx) -> i32 {
                 if case.scn.second.is_some() {
                     stats.class("two-independent-failures");
                 }
+                if case.scn.second_source.is_some() {
+                    stats.class("awaiter-with-a-second-source-that-fires-later");
+                }
+                if case.scn.gave_up.is_some() {
+                    stats.class("awaiter-gave-up-before-the-failure");
+                }
                 if f.cross_worker && case.scn.talking_awaiter.is_some() {
                     let src = render(&case.scn);
                     stats.nontrivial(&src);
@@ -376,7 +458,7 @@ pub fn run(ctx: &Ctx) -> i32 {
         });
         if let Search::Failed { minimal, message } = res {
             let (sig, msg) = message.split_once('\u{1}').map(|(a, b)| (a.to_string(), b.to_string())).unwrap_or((message.clone(), message));
-            out.push(Violation { signature: sig, summary: truncate(&msg, 7000), replay: json!({"kind": "c15", "stream": "scenario", "scenario": format!("{:?}", minimal.scn), "source": render(&minimal.scn)}) });
+            out.push(Violation { signature: sig, summary: truncate(&msg, 7000), replay: json!({"kind": "c15", "stream": "scenario", "scenario": format!("{:?}", minimal.scn), "source": render(&minimal.scn), "case": case_to_json(&minimal)}) });
         }
         out
     });
@@ -390,7 +472,7 @@ pub fn run(ctx: &Ctx) -> i32 {
             "processes that race the failing one against another source and move on are outside the statement's two classes and are not generated".into(),
             "effect errors come from the mock backend (an open of a path starting with 'fail')".into(),
         ],
-        required_classes: vec!["failure:DivZero", "failure:SliceRange", "failure:EffectError", "failure:SpawnInFilter", "failure:SendInFilter", "failure:SelectInFilter", "await-issued-after-the-failure", "await-issued-before-the-failure", "chain-of-awaiters", "two-independent-failures", "panic-stream:program-run"],
+        required_classes: vec!["failure:DivZero", "failure:SliceRange", "failure:EffectError", "failure:SpawnInFilter", "failure:SendInFilter", "failure:SelectInFilter", "await-issued-after-the-failure", "await-issued-before-the-failure", "chain-of-awaiters", "two-independent-failures", "awaiter-gave-up-before-the-failure", "awaiter-with-a-second-source-that-fires-later", "panic-stream:program-run"],
         started,
         technique: "proptest-generated failure scenarios x schedules in the deterministic simulator + harvested programs as a panic stream; oracle = per-role final states (error identity for awaiters, baseline results for bystanders) and no panic / step error",
     })
@@ -407,5 +489,61 @@ pub fn replay(payload: &serde_json::Value) -> Result<(), String> {
             Err((s, m)) => Err(format!("{s}: {}", truncate(&m, 3000))),
         };
     }
-    Err("scenario replays: re-run `qv check C15` with the recorded VERIF_SEED (the scenario text is in the violation summary)".into())
+    let case = case_from_json(&payload["case"]).ok_or("missing or malformed case")?;
+    match check(&case, &reg) {
+        Ok(_) => Ok(()),
+        Err((s, m)) => Err(format!("{s}: {}", truncate(&m, 3000))),
+    }
+}
+
+const FAIL_NAMES: [(&str, Fail); 8] = [
+    ("DivZero", Fail::DivZero),
+    ("SliceRange", Fail::SliceRange),
+    ("ModZero", Fail::ModZero),
+    ("NegativeSqrt", Fail::NegativeSqrt),
+    ("EffectError", Fail::EffectError),
+    ("SpawnInFilter", Fail::SpawnInFilter),
+    ("SendInFilter", Fail::SendInFilter),
+    ("SelectInFilter", Fail::SelectInFilter),
+];
+
+fn fail_name(f: &Fail) -> &'static str {
+    FAIL_NAMES.iter().find(|(_, x)| x == f).map(|(n, _)| *n).unwrap_or("DivZero")
+}
+
+fn fail_from(n: &str) -> Option<Fail> {
+    FAIL_NAMES.iter().find(|(x, _)| *x == n).map(|(_, f)| f.clone())
+}
+
+pub fn case_to_json(c: &Case) -> serde_json::Value {
+    let s = &c.scn;
+    json!({
+        "fail": fail_name(&s.fail),
+        "fail_work": s.fail_work,
+        "awaiters": s.awaiters.iter().map(|(w, d)| json!([w, d])).collect::<Vec<_>>(),
+        "talking_awaiter": s.talking_awaiter,
+        "bystanders": s.bystanders,
+        "late_awaiter": s.late_awaiter,
+        "second": s.second.as_ref().map(|(f, w)| json!([fail_name(f), w])),
+        "gave_up": s.gave_up.map(|(k, t, w)| json!([k, t, w])),
+        "second_source": s.second_source.map(|(m, t)| json!([m, t])),
+        "cfgs": c.cfgs.iter().map(|(w, q, sch)| json!([w, q, hex(sch)])).collect::<Vec<_>>(),
+    })
+}
+
+pub fn case_from_json(j: &serde_json::Value) -> Option<Case> {
+    let u16of = |v: &serde_json::Value| v.as_u64().map(|x| x as u16);
+    let scn = Scn {
+        fail: fail_from(j["fail"].as_str()?)?,
+        fail_work: u16of(&j["fail_work"])?,
+        awaiters: j["awaiters"].as_array()?.iter().map(|a| Some((u16of(&a[0])?, a[1].as_u64()? as u8))).collect::<Option<Vec<_>>>()?,
+        talking_awaiter: u16of(&j["talking_awaiter"]),
+        bystanders: j["bystanders"].as_array()?.iter().map(u16of).collect::<Option<Vec<_>>>()?,
+        late_awaiter: u16of(&j["late_awaiter"]),
+        second: j["second"].as_array().and_then(|a| Some((fail_from(a[0].as_str()?)?, u16of(&a[1])?))),
+        gave_up: j["gave_up"].as_array().and_then(|a| Some((a[0].as_u64()? as u8, a[1].as_u64()? as u8, u16of(&a[2])?))),
+        second_source: j["second_source"].as_array().and_then(|a| Some((a[0].as_bool()?, a[1].as_u64()? as u8))),
+    };
+    let cfgs = j["cfgs"].as_array()?.iter().map(|c| Some((c[0].as_u64()? as u8, c[1].as_u64()? as u8, unhex(c[2].as_str()?)))).collect::<Option<Vec<_>>>()?;
+    Some(Case { scn, cfgs })
 }
